@@ -364,7 +364,10 @@ class Body:
             if pr == "*":
                 e = ("deref", e)
             elif pr[0] == "f":
-                e = ("field", e, pr[1])
+                if e[0] == "agg" and e[1] in ("tuple", "adt", "closure", "array") and pr[1] < len(e[4]):
+                    e = e[4][pr[1]]   # a field of a freshly built aggregate is that operand
+                else:
+                    e = ("field", e, pr[1])
             elif pr[0] == "i":
                 e = ("index", e, self.expr_of_local(pr[1], depth + 1, seen))
             elif pr[0] == "ci":
